@@ -8,6 +8,7 @@ timeout, instance creation during the history, `/run` (with settings), `/equatio
 timed out is restored lazily from its externalised state by its next request.
 -/
 namespace Bptk.C16
+open Bptk.C06 (Store)
 
 /-- The full property: the responses an owner `t` (an instance, or the server-level object) gets in an
 interleaved history are those it gets when the requests of all other owners (including their creation, stop,
@@ -17,119 +18,172 @@ def C16_full (c : Cfg) : Prop :=
     respsOf t (resps c (Server.initAd k ad) ops) = respsOf t (resps c (Server.initAd k ad) (proj t ops))
 
 def Req.noSetting : Req → Bool
-  | .runStep (some _) => false
-  | .beginSession (some _) => false
-  | .run (some _) => false
+  | .runStep st => st.isEmpty
+  | .beginSession st => st.isEmpty
+  | .run st => st.isEmpty
   | _ => true
 
-theorem applySetting_indep (c : Cfg) (h : c.instancesShareNothing = true) (g g' : Int) (k : Int) (s : Option Int) :
-    (applySetting c g k s).2 = (applySetting c g' k s).2 := by
-  simp [applySetting, h]
+/-! ### nothing shared: the cell `g` is neither read nor written -/
 
-theorem applySetting_g (c : Cfg) (h : c.instancesShareNothing = true) (g : Int) (k : Int) (s : Option Int) :
-    (applySetting c g k s).1 = g := by
-  simp [applySetting, h]
+theorem writeMod_good (c : Cfg) (h : c.instancesShareNothing = true) (g m u : Store) :
+    writeMod c g m u = (g, Store.update m u) := by
+  simp [writeMod, h]
 
-theorem applySetting_none (c : Cfg) (g : Int) (k : Int) : (applySetting c g k none).1 = g := by
-  simp only [applySetting]; split <;> rfl
+theorem effOf_good (c : Cfg) (h : c.instancesShareNothing = true) (g m : Store) : effOf c g m = m := by
+  simp [effOf, h]
 
-theorem revive_indep (c : Cfg) (h : c.instancesShareNothing = true) (ad : Bool) (g g' : Int) (x : Inst) :
-    (revive c ad g x).2 = (revive c ad g' x).2 := by
+/-- settings that are empty write nothing, whatever is shared -/
+theorem writeMod_nil (c : Cfg) (g m : Store) : writeMod c g m [] = (g, m) := by
+  simp only [writeMod]; split <;> rfl
+
+theorem objBegin_good (c : Cfg) (h : c.instancesShareNothing = true) (g g' : Store) (o : Obj) (st : Store) :
+    objBegin c g o st = (g, (objBegin c g' o st).2) := by
+  simp [objBegin, writeMod_good c h]
+
+theorem objStep_good (c : Cfg) (h : c.instancesShareNothing = true) (g g' : Store) (o : Obj) (s : Sess) (st : Store) :
+    objStep c g o s st = (g, (objStep c g' o s st).2) := by
+  simp [objStep, writeMod_good c h, effOf_good c h]
+
+theorem replayFold_good (c : Cfg) (h : c.instancesShareNothing = true) (g g' : Store) :
+    ∀ (l : List Store) (m : Store) (a : List Store),
+      l.foldl (replayStep c) (g, m, a) = (g, (l.foldl (replayStep c) (g', m, a)).2) := by
+  intro l
+  induction l with
+  | nil => intro m a; rfl
+  | cons st rest ih =>
+      intro m a
+      simp only [List.foldl_cons, replayStep, writeMod_good c h, effOf_good c h]
+      exact ih _ _
+
+theorem replay_good (c : Cfg) (h : c.instancesShareNothing = true) (g g' : Store) (o : Obj) (s : Sess) :
+    replay c g o s = (g, (replay c g' o s).2) := by
+  simp only [replay, writeMod_good c h]
+  rw [replayFold_good c h g g']
+
+theorem revive_good (c : Cfg) (h : c.instancesShareNothing = true) (ad : Bool) (g g' : Store) (src : Obj) (x : Inst) :
+    revive c ad g src x = (g, (revive c ad g' src x).2) := by
   simp only [revive]
   split
   · rfl
   · split
     · split
-      · simp [applySetting, h]
-      · rfl
-    · rfl
-
-theorem revive_g (c : Cfg) (h : c.instancesShareNothing = true) (ad : Bool) (g : Int) (x : Inst) :
-    (revive c ad g x).1 = g := by
-  simp only [revive]
-  split
-  · rfl
-  · split
-    · split
-      · simp [applySetting, h]
+      · rw [replay_good c h g g']
       · rfl
     · rfl
 
 /-- without an adapter nothing is ever restored -/
-theorem revive_noAd (c : Cfg) (g : Int) (x : Inst) : revive c false g x = (g, x) := by
+theorem revive_noAd (c : Cfg) (g : Store) (src : Obj) (x : Inst) : revive c false g src x = (g, x, false) := by
   simp [revive]
 
-/-- with nothing shared, a request's response and the instance's next state do not depend on the process-wide
-cell, and the cell is not written. -/
-theorem stepInst_indep (c : Cfg) (h : c.instancesShareNothing = true) (ad : Bool) (g g' : Int) (x : Inst) (r : Req) :
-    (stepInst c ad g x r).2 = (stepInst c ad g' x r).2 := by
-  have hr := revive_indep c h ad g g' x
-  have h1 := revive_g c h ad g x
-  have h2 := revive_g c h ad g' x
-  cases r <;> simp only [stepInst, runStep] <;> (try rfl)
+/-- with nothing shared, a request's response, the instance's next state and whether an object was taken do not
+depend on the process-wide cell, and the cell is not written. -/
+theorem stepInst_good (c : Cfg) (h : c.instancesShareNothing = true) (ad : Bool) (g g' : Store) (src : Obj) (x : Inst)
+    (r : Req) : stepInst c ad g src x r = (g, (stepInst c ad g' src x r).2) := by
+  have hr := revive_good c h ad g g' src x
+  cases r <;> simp only [stepInst] <;> (try rfl)
   all_goals rw [hr]
-  all_goals (try split) <;> (try split) <;> simp [applySetting, h]
+  all_goals dsimp only
+  · split
+    · rw [objBegin_good c h g g', objBegin_good c h (revive c ad g' src x).1 g']
+    · rfl
+  · split
+    · split
+      · rfl
+      · rw [objStep_good c h g g', objStep_good c h (revive c ad g' src x).1 g']
+    · rfl
+  · split <;> rfl
+  · split <;> rfl
+  · split <;> rfl
 
-theorem stepInst_keeps_g (c : Cfg) (h : c.instancesShareNothing = true) (ad : Bool) (g : Int) (x : Inst) (r : Req) :
-    (stepInst c ad g x r).1 = g := by
-  have h1 := revive_g c h ad g x
-  cases r <;> simp only [stepInst, runStep] <;> (try rfl)
-  all_goals (try split) <;> (try split) <;> simp [applySetting, h, h1]
+theorem stepInst_indep (c : Cfg) (h : c.instancesShareNothing = true) (ad : Bool) (g g' : Store) (src : Obj) (x : Inst)
+    (r : Req) : (stepInst c ad g src x r).2 = (stepInst c ad g' src x r).2 := by
+  rw [stepInst_good c h ad g g']
 
-theorem stepOwn_indep (c : Cfg) (h : c.instancesShareNothing = true) (g g' : Int) (x : Inst) (r : Req) :
-    (stepOwn c g x r).2 = (stepOwn c g' x r).2 := by
-  cases r <;> simp [stepOwn, applySetting, h]
+theorem stepInst_keeps_g (c : Cfg) (h : c.instancesShareNothing = true) (ad : Bool) (g : Store) (src : Obj) (x : Inst)
+    (r : Req) : (stepInst c ad g src x r).1 = g := by
+  rw [stepInst_good c h ad g []]
 
-theorem stepOwn_keeps_g (c : Cfg) (h : c.instancesShareNothing = true) (g : Int) (x : Inst) (r : Req) :
-    (stepOwn c g x r).1 = g := by
-  cases r <;> simp [stepOwn, applySetting, h]
+theorem stepOwn_good (c : Cfg) (h : c.instancesShareNothing = true) (g g' : Store) (o : Obj) (r : Req) :
+    stepOwn c g o r = (g, (stepOwn c g' o r).2) := by
+  cases r <;> simp [stepOwn, writeMod_good c h, effOf_good c h]
+
+theorem stepOwn_indep (c : Cfg) (h : c.instancesShareNothing = true) (g g' : Store) (o : Obj) (r : Req) :
+    (stepOwn c g o r).2 = (stepOwn c g' o r).2 := by
+  rw [stepOwn_good c h g g']
+
+theorem stepOwn_keeps_g (c : Cfg) (h : c.instancesShareNothing = true) (g : Store) (o : Obj) (r : Req) :
+    (stepOwn c g o r).1 = g := by
+  rw [stepOwn_good c h g []]
 
 /-- without an adapter, a request that carries no setting never writes the process-wide cell. -/
-theorem stepInst_g (c : Cfg) (g : Int) (x : Inst) (r : Req) (h : r.noSetting = true) :
-    (stepInst c false g x r).1 = g := by
+theorem stepInst_g (c : Cfg) (g : Store) (src : Obj) (x : Inst) (r : Req) (h : r.noSetting = true) :
+    (stepInst c false g src x r).1 = g := by
   cases r with
-  | runStep s =>
-    cases s with
-    | some v => simp [Req.noSetting] at h
-    | none =>
-      simp only [stepInst, runStep, revive_noAd]
-      split
-      · split
-        · rfl
-        · exact applySetting_none c g x.knob
+  | runStep st =>
+    simp only [Req.noSetting, List.isEmpty_iff] at h; subst h
+    simp only [stepInst, revive_noAd]
+    split
+    · split
       · rfl
-  | beginSession s =>
-    cases s with
-    | some v => simp [Req.noSetting] at h
-    | none =>
-      simp only [stepInst, revive_noAd]
-      split
-      · exact applySetting_none c g x.knob
-      · rfl
+      · simp [objStep, writeMod_nil]
+    · rfl
+  | beginSession st =>
+    simp only [Req.noSetting, List.isEmpty_iff] at h; subst h
+    simp only [stepInst, revive_noAd]
+    split
+    · simp [objBegin, writeMod_nil]
+    · rfl
   | _ => simp only [stepInst, revive_noAd] <;> (try split) <;> rfl
 
-theorem stepOwn_g (c : Cfg) (g : Int) (x : Inst) (r : Req) (h : r.noSetting = true) : (stepOwn c g x r).1 = g := by
+theorem stepOwn_g (c : Cfg) (g : Store) (o : Obj) (r : Req) (h : r.noSetting = true) : (stepOwn c g o r).1 = g := by
   cases r with
-  | run s =>
-    cases s with
-    | some v => simp [Req.noSetting] at h
-    | none => exact applySetting_none c g x.knob
+  | run st =>
+    simp only [Req.noSetting, List.isEmpty_iff] at h; subst h
+    simp [stepOwn, writeMod_nil]
   | _ => rfl
+
+/-- **Freshness**: with `freshObjects`, whatever happened on the server before, the object the next started or
+restored instance gets is a new factory product — one no earlier instance has written to. -/
+theorem takeObj_fresh (c : Cfg) (h : c.freshObjects = true) (s : Server) : takeObj c s = Obj.fresh := by
+  simp [takeObj, h]
 
 /-- with the good mechanism, or without an adapter, looking an id up touches nobody -/
 theorem preRestore_id (c : Cfg) (s : Server) (op : Nat × Req) (h : c.restoreOnlyAddressed = true ∨ s.ad = false) :
     preRestore c s op = s := by
   rcases h with h | h <;> simp [preRestore, h]
 
-theorem stepNone_frame (s : Server) (i : Nat) (r : Req) :
-    (stepNone s i r).1.g = s.g ∧ (stepNone s i r).1.ad = s.ad ∧ (stepNone s i r).1.own = s.own ∧
-    ∀ j, j ≠ i → (stepNone s i r).1.insts j = s.insts j := by
+/-! taking an object from `_make_bptk` and sparing one touch only the spare list and the factory counter -/
+@[simp] theorem tookObj_g (c : Cfg) (s : Server) : (tookObj c s).g = s.g := by
+  unfold tookObj; split; · rfl
+  split <;> rfl
+@[simp] theorem tookObj_ad (c : Cfg) (s : Server) : (tookObj c s).ad = s.ad := by
+  unfold tookObj; split; · rfl
+  split <;> rfl
+@[simp] theorem tookObj_own (c : Cfg) (s : Server) : (tookObj c s).own = s.own := by
+  unfold tookObj; split; · rfl
+  split <;> rfl
+@[simp] theorem tookObj_insts (c : Cfg) (s : Server) : (tookObj c s).insts = s.insts := by
+  unfold tookObj; split; · rfl
+  split <;> rfl
+@[simp] theorem spareObj_ad (c : Cfg) (s : Server) (x : Inst) (r : Req) : (spareObj c s x r).ad = s.ad := by
+  unfold spareObj; split <;> rfl
+@[simp] theorem spareObj_own (c : Cfg) (s : Server) (x : Inst) (r : Req) : (spareObj c s x r).own = s.own := by
+  unfold spareObj; split <;> rfl
+@[simp] theorem tookIf_ad (c : Cfg) (s : Server) (b : Bool) : (if b = true then tookObj c s else s).ad = s.ad := by
+  split <;> simp
+@[simp] theorem tookIf_own (c : Cfg) (s : Server) (b : Bool) : (if b = true then tookObj c s else s).own = s.own := by
+  split <;> simp
+
+theorem stepNone_frame (c : Cfg) (s : Server) (i : Nat) (r : Req) :
+    (stepNone c s i r).1.g = s.g ∧ (stepNone c s i r).1.ad = s.ad ∧ (stepNone c s i r).1.own = s.own ∧
+    ∀ j, j ≠ i → (stepNone c s i r).1.insts j = s.insts j := by
   cases r <;> simp [stepNone, updFn]
   intro j hj; simp [hj]
 
-theorem stepNone_local (s s' : Server) (i : Nat) (r : Req) (h : s.insts i = s'.insts i) :
-    (stepNone s i r).2 = (stepNone s' i r).2 ∧ (stepNone s i r).1.insts i = (stepNone s' i r).1.insts i := by
-  cases r <;> simp [stepNone, updFn, h]
+theorem stepNone_local (c : Cfg) (hF : c.freshObjects = true) (s s' : Server) (i : Nat) (r : Req)
+    (h : s.insts i = s'.insts i) :
+    (stepNone c s i r).2 = (stepNone c s' i r).2 ∧ (stepNone c s i r).1.insts i = (stepNone c s' i r).1.insts i := by
+  cases r <;> simp [stepNone, updFn, h, takeObj_fresh c hF]
 
 /-- a request leaves every other owner's part of the server alone, and never changes whether an adapter exists -/
 theorem step_other (c : Cfg) (s : Server) (op : Nat × Req) (t : Option Nat) (h : owner op ≠ t)
@@ -148,7 +202,7 @@ theorem step_other (c : Cfg) (s : Server) (op : Nat × Req) (t : Option Nat) (h 
     cases hx : s.insts op.1 with
     | none =>
       simp only [Bool.false_eq_true, if_false]
-      obtain ⟨_, f2, f3, f4⟩ := stepNone_frame s op.1 op.2
+      obtain ⟨_, f2, f3, f4⟩ := stepNone_frame c s op.1 op.2
       refine ⟨?_, f2⟩
       cases t with
       | none => simp [comp, f3]
@@ -157,9 +211,9 @@ theorem step_other (c : Cfg) (s : Server) (op : Nat × Req) (t : Option Nat) (h 
         simp [comp, f4 i this]
     | some x =>
       simp only [Bool.false_eq_true, if_false]
-      refine ⟨?_, by first | rfl | trivial⟩
+      refine ⟨?_, by simp⟩
       cases t with
-      | none => rfl
+      | none => simp [comp]
       | some i =>
         have : i ≠ op.1 := fun e => h (by rw [ho, e])
         simp [comp, updFn, this]
@@ -168,7 +222,8 @@ theorem step_other (c : Cfg) (s : Server) (op : Nat × Req) (t : Option Nat) (h 
 server (plus the shared cell when something is shared). -/
 theorem step_local (c : Cfg) (s s' : Server) (op : Nat × Req)
     (hc : comp (owner op) s = comp (owner op) s') (had : s.ad = s'.ad)
-    (hg : c.instancesShareNothing = true ∨ s.g = s'.g) (hR : c.restoreOnlyAddressed = true ∨ s.ad = false) :
+    (hg : c.instancesShareNothing = true ∨ s.g = s'.g) (hR : c.restoreOnlyAddressed = true ∨ s.ad = false)
+    (hF : c.freshObjects = true) :
     (step c s op).2 = (step c s' op).2 ∧ comp (owner op) (step c s op).1 = comp (owner op) (step c s' op).1 ∧
     (c.instancesShareNothing = true ∨ (step c s op).1.g = (step c s' op).1.g) := by
   have hR' : c.restoreOnlyAddressed = true ∨ s'.ad = false := by rw [← had]; exact hR
@@ -178,8 +233,8 @@ theorem step_local (c : Cfg) (s s' : Server) (op : Nat × Req)
   · simp only [hs, if_true]
     have ho : owner op = none := by simp [owner, hs]
     rw [ho] at hc ⊢
-    simp only [comp, Option.some.injEq] at hc
-    rw [hc]
+    have hc' : s.own = s'.own := by simpa [comp] using hc
+    rw [hc']
     rcases hg with hg | hg
     · have := stepOwn_indep c hg s.g s'.g s'.own op.2
       exact ⟨by rw [this], by simp [comp, this], Or.inl hg⟩
@@ -192,17 +247,18 @@ theorem step_local (c : Cfg) (s s' : Server) (op : Nat × Req)
     cases hx : s.insts op.1 with
     | none =>
       simp only [Bool.false_eq_true, if_false]
-      have hl := stepNone_local s s' op.1 op.2 hc
-      have f := stepNone_frame s op.1 op.2
-      have f' := stepNone_frame s' op.1 op.2
+      have hl := stepNone_local c hF s s' op.1 op.2 hc
+      have f := stepNone_frame c s op.1 op.2
+      have f' := stepNone_frame c s' op.1 op.2
       refine ⟨hl.1, by simpa [comp] using hl.2, ?_⟩
       rcases hg with hg | hg
       · exact Or.inl hg
       · exact Or.inr (by rw [f.1, f'.1, hg])
     | some x =>
       simp only [Bool.false_eq_true, if_false]
+      rw [takeObj_fresh c hF s, takeObj_fresh c hF s']
       rcases hg with hg | hg
-      · have := stepInst_indep c hg s.ad s.g s'.g x op.2
+      · have := stepInst_indep c hg s.ad s.g s'.g Obj.fresh x op.2
         exact ⟨by rw [this], by simp [comp, updFn, this], Or.inl hg⟩
       · rw [hg]; exact ⟨rfl, by simp [comp, updFn], Or.inr rfl⟩
 
@@ -215,8 +271,8 @@ theorem step_g (c : Cfg) (s : Server) (op : Nat × Req) (had : s.ad = false) (h 
   · simp only [hs, if_true]; exact stepOwn_g c s.g s.own op.2 h
   · simp only [hs]
     cases hx : s.insts op.1 with
-    | none => simp only [Bool.false_eq_true, if_false]; exact (stepNone_frame s op.1 op.2).1
-    | some x => simp only [Bool.false_eq_true, if_false, had]; exact stepInst_g c s.g x op.2 h
+    | none => simp only [Bool.false_eq_true, if_false]; exact (stepNone_frame c s op.1 op.2).1
+    | some x => simp only [Bool.false_eq_true, if_false, had]; exact stepInst_g c s.g _ x op.2 h
 
 /-- with nothing shared no request writes the shared cell -/
 theorem step_keeps_g (c : Cfg) (h : c.instancesShareNothing = true) (s : Server) (op : Nat × Req)
@@ -227,12 +283,12 @@ theorem step_keeps_g (c : Cfg) (h : c.instancesShareNothing = true) (s : Server)
   · simp only [hs, if_true]; exact stepOwn_keeps_g c h s.g s.own op.2
   · simp only [hs]
     cases hx : s.insts op.1 with
-    | none => simp only [Bool.false_eq_true, if_false]; exact (stepNone_frame s op.1 op.2).1
-    | some x => simp only [Bool.false_eq_true, if_false]; exact stepInst_keeps_g c h s.ad s.g x op.2
+    | none => simp only [Bool.false_eq_true, if_false]; exact (stepNone_frame c s op.1 op.2).1
+    | some x => simp only [Bool.false_eq_true, if_false]; exact stepInst_keeps_g c h s.ad s.g _ x op.2
 
 /-- the generalised commutation lemma: two servers that agree on owner `t`'s part (and, when something is
 shared, on the shared cell) answer `t`'s requests alike, whatever is addressed to the others in between. -/
-theorem proj_resps (c : Cfg) (t : Option Nat) (ops : List (Nat × Req))
+theorem proj_resps (c : Cfg) (hF : c.freshObjects = true) (t : Option Nat) (ops : List (Nat × Req))
     (hops : (c.instancesShareNothing = true ∧ c.restoreOnlyAddressed = true) ∨
       ∀ op ∈ ops, owner op ≠ t → op.2.noSetting = true) :
     ∀ (s s' : Server), comp t s = comp t s' → s.ad = s'.ad →
@@ -262,7 +318,7 @@ theorem proj_resps (c : Cfg) (t : Option Nat) (ops : List (Nat × Req))
         rcases hg with h | h
         · exact Or.inl h.1
         · exact Or.inr h.1
-      obtain ⟨h1, h2, h3⟩ := step_local c s s' op hi had hg' hR
+      obtain ⟨h1, h2, h3⟩ := step_local c s s' op hi had hg' hR hF
       rw [h1]
       congr 1
       have a1 := (step_other c s op (some (op.1 + 1)) (by
@@ -292,100 +348,142 @@ theorem proj_resps (c : Cfg) (t : Option Nat) (ops : List (Nat × Req))
           · refine Or.inr ⟨?_, by rw [ho.2]; exact hg.2⟩
             rw [step_g c s op hg.2 (h op List.mem_cons_self hop)]; exact hg.1
 
-theorem C16_full_of_good (c : Cfg) (h : c.instancesShareNothing = true) (hr : c.restoreOnlyAddressed = true) :
-    C16_full c := by
+theorem C16_full_of_good (c : Cfg) (h : c.instancesShareNothing = true) (hr : c.restoreOnlyAddressed = true)
+    (hF : c.freshObjects = true) : C16_full c := by
   intro k ad ops t
-  exact proj_resps c t ops (Or.inl ⟨h, hr⟩) _ _ rfl rfl (Or.inl ⟨h, hr⟩)
+  exact proj_resps c hF t ops (Or.inl ⟨h, hr⟩) _ _ rfl rfl (Or.inl ⟨h, hr⟩)
 
-/-- Whatever the factory shares (no adapter configured): an owner is unaffected by everything addressed to the
-others that carries no setting — instances created, sessions begun and ended, steps without settings, results,
-keep-alive, `/equations`, `/agents`, `/run` without settings, **stop and timeout**. -/
-theorem C16_partial (c : Cfg) (k : Nat) (ops : List (Nat × Req)) (t : Option Nat)
+/-- The responses carry what the numbers are a function of (time index, effective settings of every step of the
+live simulation; logged rows; the settings a run reads), so for ANY numeric simulator `Sim` the actual response
+values of an owner in an interleaving equal those of its own requests alone. -/
+theorem C16_values {R : Type} (Sim : Option Resp → R) (c : Cfg) (h : c.instancesShareNothing = true)
+    (hr : c.restoreOnlyAddressed = true) (hF : c.freshObjects = true) (k : Nat) (ad : Bool) (ops : List (Nat × Req))
+    (t : Option Nat) :
+    (respsOf t (resps c (Server.initAd k ad) ops)).map Sim =
+    (respsOf t (resps c (Server.initAd k ad) (proj t ops))).map Sim := by
+  rw [C16_full_of_good c h hr hF k ad ops t]
+
+/-- a history that never addresses owner `t` leaves `t`'s part of the server and the adapter flag as they were -/
+theorem final_other (c : Cfg) (hr : c.restoreOnlyAddressed = true) (t : Option Nat) (pre : List (Nat × Req))
+    (hpre : ∀ op ∈ pre, owner op ≠ t) : ∀ s : Server, comp t (final c s pre) = comp t s ∧ (final c s pre).ad = s.ad := by
+  induction pre with
+  | nil => intro s; exact ⟨rfl, rfl⟩
+  | cons op rest ih =>
+      intro s
+      have ho := step_other c s op t (hpre op List.mem_cons_self) (Or.inl hr)
+      have := ih (fun o h => hpre o (List.mem_cons_of_mem _ h)) (step c s op).1
+      simp only [final]
+      exact ⟨by rw [this.1, ho.1], by rw [this.2, ho.2]⟩
+
+/-- **Lifecycle isolation**: the responses of an instance are a function of the requests addressed to it since
+its creation (and of its externalised state, which only its own requests write) only.  Whatever happened on the
+server before instance `i` was started — any history `pre` of starts, sessions with settings, stops, timeouts,
+restorations, `/run`s of other owners, on a server with any number of initial instances — and whatever is
+interleaved with its requests afterwards, instance `i` answers exactly as on a brand-new, otherwise empty server
+that receives only its own requests (the first of which is its `create`). -/
+theorem C16_lifecycle (c : Cfg) (h : c.instancesShareNothing = true) (hr : c.restoreOnlyAddressed = true)
+    (hF : c.freshObjects = true) (k : Nat) (ad : Bool) (pre ops : List (Nat × Req)) (i : Nat) (hk : k ≤ i)
+    (hpre : ∀ op ∈ pre, owner op ≠ some i) :
+    respsOf (some i) (resps c (final c (Server.initAd k ad) pre) ops) =
+    respsOf (some i) (resps c (Server.initAd 0 ad) (proj (some i) ops)) := by
+  have hf := final_other c hr (some i) pre hpre (Server.initAd k ad)
+  apply proj_resps c hF (some i) ops (Or.inl ⟨h, hr⟩) _ _ _ _ (Or.inl ⟨h, hr⟩)
+  · rw [hf.1]
+    have : ¬ i < k := by omega
+    simp [comp, Server.initAd, this]
+  · rw [hf.2]; rfl
+
+/-- Whatever the factory shares (no adapter configured, objects fresh): an owner is unaffected by everything
+addressed to the others that carries no setting — instances created, sessions begun and ended, steps without
+settings, results, keep-alive, `/equations`, `/agents`, `/run` without settings, **stop and timeout**. -/
+theorem C16_partial (c : Cfg) (hF : c.freshObjects = true) (k : Nat) (ops : List (Nat × Req)) (t : Option Nat)
     (h : ∀ op ∈ ops, owner op ≠ t → op.2.noSetting = true) :
     respsOf t (resps c (Server.init k) ops) = respsOf t (resps c (Server.init k) (proj t ops)) :=
-  proj_resps c t ops (Or.inr h) _ _ rfl rfl (Or.inr ⟨rfl, rfl⟩)
+  proj_resps c hF t ops (Or.inr h) _ _ rfl rfl (Or.inr ⟨rfl, rfl⟩)
 
 /-- stop, timeout and creation are local (instance of `C16_partial`, stated on its own as in the property). -/
-theorem C16_stop_timeout_local (c : Cfg) (k : Nat) (ops : List (Nat × Req)) (t : Option Nat)
+theorem C16_stop_timeout_local (c : Cfg) (hF : c.freshObjects = true) (k : Nat) (ops : List (Nat × Req)) (t : Option Nat)
     (h : ∀ op ∈ ops, owner op ≠ t → (op.2 = .stop ∨ op.2 = .expire ∨ op.2 = .create)) :
     respsOf t (resps c (Server.init k) ops) = respsOf t (resps c (Server.init k) (proj t ops)) := by
-  apply C16_partial
+  apply C16_partial c hF
   intro op ho hne
   rcases h op ho hne with h | h | h <;> simp [h, Req.noSetting]
 
 /-- Two requests of different owners commute when nothing is shared: each gets the same response in either
-order, and both orders leave every owner's part of the server, the shared cell and the adapter flag the same.
+order, and both orders leave every owner's part of the server and the adapter flag the same.
 (Request-handler granularity: what two handlers running concurrently for different instances may do, as long as
 each handler is atomic, equals the sequential result in either order.) -/
 theorem C16_commute (c : Cfg) (h : c.instancesShareNothing = true) (hr : c.restoreOnlyAddressed = true)
-    (s : Server) (a b : Nat × Req)
-    (hab : owner a ≠ owner b) :
+    (hF : c.freshObjects = true) (s : Server) (a b : Nat × Req) (hab : owner a ≠ owner b) :
     (step c (step c s b).1 a).2 = (step c s a).2 ∧
     (step c (step c s a).1 b).2 = (step c s b).2 ∧
     (∀ t, comp t (step c (step c s a).1 b).1 = comp t (step c (step c s b).1 a).1) ∧
     (step c (step c s a).1 b).1.ad = (step c (step c s b).1 a).1.ad := by
-  have ob := step_other c s b (owner a) (Ne.symm hab) (Or.inl hr)
-  have oa := step_other c s a (owner b) hab (Or.inl hr)
-  have la := step_local c (step c s b).1 s a ob.1 ob.2 (Or.inl h) (Or.inl hr)
-  have lb := step_local c (step c s a).1 s b oa.1 oa.2 (Or.inl h) (Or.inl hr)
+  have R : ∀ s' : Server, c.restoreOnlyAddressed = true ∨ s'.ad = false := fun _ => Or.inl hr
+  have ob := step_other c s b (owner a) (Ne.symm hab) (R _)
+  have oa := step_other c s a (owner b) hab (R _)
+  have la := step_local c (step c s b).1 s a ob.1 ob.2 (Or.inl h) (R _) hF
+  have lb := step_local c (step c s a).1 s b oa.1 oa.2 (Or.inl h) (R _) hF
   refine ⟨la.1, lb.1, ?_, ?_⟩
   · intro t
     by_cases ha : owner a = t
     · subst ha
-      rw [(step_other c (step c s a).1 b (owner a) (Ne.symm hab) (Or.inl hr)).1, la.2.1]
+      rw [(step_other c (step c s a).1 b (owner a) (Ne.symm hab) (R _)).1, la.2.1]
     · by_cases hb : owner b = t
       · subst hb
-        rw [(step_other c (step c s b).1 a (owner b) hab (Or.inl hr)).1, lb.2.1]
-      · rw [(step_other c (step c s a).1 b t hb (Or.inl hr)).1, (step_other c s a t ha (Or.inl hr)).1,
-            (step_other c (step c s b).1 a t ha (Or.inl hr)).1, (step_other c s b t hb (Or.inl hr)).1]
-  · rw [(step_other c (step c s a).1 b (some (b.1 + a.1 + 1)) (by simp only [owner]; split <;> simp <;> omega) (Or.inl hr)).2,
-        (step_other c s a (some (b.1 + a.1 + 1)) (by simp only [owner]; split <;> simp <;> omega) (Or.inl hr)).2,
-        (step_other c (step c s b).1 a (some (b.1 + a.1 + 1)) (by simp only [owner]; split <;> simp <;> omega) (Or.inl hr)).2,
-        (step_other c s b (some (b.1 + a.1 + 1)) (by simp only [owner]; split <;> simp <;> omega) (Or.inl hr)).2]
+        rw [(step_other c (step c s b).1 a (owner b) hab (R _)).1, lb.2.1]
+      · rw [(step_other c (step c s a).1 b t hb (R _)).1, (step_other c s a t ha (R _)).1,
+            (step_other c (step c s b).1 a t ha (R _)).1, (step_other c s b t hb (R _)).1]
+  · rw [(step_other c (step c s a).1 b (some (b.1 + a.1 + 1)) (by simp only [owner]; split <;> simp <;> omega) (R _)).2,
+        (step_other c s a (some (b.1 + a.1 + 1)) (by simp only [owner]; split <;> simp <;> omega) (R _)).2,
+        (step_other c (step c s b).1 a (some (b.1 + a.1 + 1)) (by simp only [owner]; split <;> simp <;> omega) (R _)).2,
+        (step_other c s b (some (b.1 + a.1 + 1)) (by simp only [owner]; split <;> simp <;> omega) (R _)).2]
 
-/-- Negation witness for a factory whose products share a cell: a setting applied through instance 0 changes
-the step instance 1 returns. -/
+/-! ### witnesses -/
+
+def noSt : Store := []
+
+/-- Negation witness for a factory whose products share a cell (the base model's points table): a points
+setting applied through instance 0 changes the step instance 1 returns. -/
 theorem C16_witness_shared (c : Cfg) (h : c.instancesShareNothing = false) : ¬ C16_full c := by
   intro hf
-  have := hf 2 false [(0, .beginSession none), (1, .beginSession none), (0, .runStep (some 5)), (1, .runStep none),
-    (1, .runStep none)] (some 1)
-  obtain ⟨a, b⟩ := c; simp only at h; subst h
-  revert this; cases b <;> decide
+  have := hf 2 false [(0, .beginSession noSt), (1, .beginSession noSt), (0, .runStep [(2, 5)]), (1, .runStep noSt),
+    (1, .runStep noSt)] (some 1)
+  obtain ⟨a, b, d⟩ := c; simp only at h; subst h
+  revert this; cases b <;> cases d <;> decide
 
 /-- same mechanism through the begin-session settings, an instance created during the history, and the
-server-level `/run`: its settings reach the instance. -/
+server-level `/run`: its points settings reach the instance. -/
 theorem C16_witness_shared_run (c : Cfg) (h : c.instancesShareNothing = false) : ¬ C16_full c := by
   intro hf
-  have := hf 0 true [(3, .create), (3, .beginSession (some 2)), (0, .run (some 7)), (3, .runStep none)] (some 3)
-  obtain ⟨a, b⟩ := c; simp only at h; subst h
-  revert this; cases b <;> decide
+  have := hf 0 true [(3, .create), (3, .beginSession [(2, 2)]), (0, .run [(2, 7)]), (3, .runStep noSt)] (some 3)
+  obtain ⟨a, b, d⟩ := c; simp only at h; subst h
+  revert this; cases b <;> cases d <;> decide
 
 /-- an instance with an externalised session (one step), then — not externalised — the session ended and a new one
 begun with another setting; instance 0 is stopped and a late keep-alive for it arrives; instance 1 steps. -/
 def restoreOps : List (Nat × Req) :=
-  [(1, .beginSession none), (1, .runStep none), (1, .endSession), (1, .beginSession (some 5)), (0, .stop), (0, .keepAlive),
-   (1, .runStep none), (1, .results)]
+  [(1, .beginSession noSt), (1, .runStep noSt), (1, .endSession), (1, .beginSession [(0, 5)]), (0, .stop), (0, .keepAlive),
+   (1, .runStep noSt), (1, .results)]
 
-/-- the same with a request to an id that never existed, and a timed-out instance revived by its own request. -/
+/-- the same with a request to an id that never existed. -/
 def restoreOpsGhost : List (Nat × Req) :=
-  [(1, .beginSession none), (1, .runStep none), (1, .endSession), (7, .results), (1, .runStep none)]
+  [(1, .beginSession noSt), (1, .runStep noSt), (1, .endSession), (7, .results), (1, .runStep noSt)]
 
-/-- Negation witness for the restore-everything mechanism (`restoreOnlyAddressed = false`), whatever the factory
-shares: on a server with adapter the late keep-alive for the stopped instance 0 rebuilds instance 1 from the
-store — its next step continues the OLD session (`stepped 1 …` with the old knob instead of `stepped 0 0 5`). -/
+/-- Negation witness for the restore-everything mechanism (`restoreOnlyAddressed = false`), whatever else holds:
+on a server with adapter the late keep-alive for the stopped instance 0 rebuilds instance 1 from the store — its
+next step continues the OLD session (time 1, constant 1 instead of time 0, constant 5). -/
 theorem C16_witness_restore_all (c : Cfg) (h : c.restoreOnlyAddressed = false) : ¬ C16_full c := by
   intro hf
   have := hf 2 true restoreOps (some 1)
-  obtain ⟨a, b⟩ := c; simp only at h; subst h
-  revert this; cases a <;> decide
+  obtain ⟨a, b, d⟩ := c; simp only at h; subst h
+  revert this; cases a <;> cases d <;> decide
 
-/-- … and a request to an id that never existed does the same (instance 1 had ended its session: alone it is
-answered "no data" / save error, interleaved it steps the resurrected session). -/
 theorem C16_witness_restore_all_ghost (c : Cfg) (h : c.restoreOnlyAddressed = false) : ¬ C16_full c := by
   intro hf
   have := hf 2 true restoreOpsGhost (some 1)
-  obtain ⟨a, b⟩ := c; simp only at h; subst h
-  revert this; cases a <;> decide
+  obtain ⟨a, b, d⟩ := c; simp only at h; subst h
+  revert this; cases a <;> cases d <;> decide
 
 /-- "A request to an absent id touches no other instance", stated on its own: with the good mechanism (or without
 adapter) a request addressed to an id that is not in memory — never existed, stopped, timed out — leaves every other
@@ -395,27 +493,58 @@ theorem C16_absent_touches_nobody (c : Cfg) (s : Server) (op : Nat × Req) (t : 
     comp t (step c s op).1 = comp t s :=
   (step_other c s op t ht hr).1
 
-/-- … and with the defective mechanism it does not: a concrete server state where a keep-alive for a stopped
-instance changes another, live instance. -/
 theorem C16_absent_touches_others (c : Cfg) (h : c.restoreOnlyAddressed = false) :
     ∃ (s : Server) (op : Nat × Req) (t : Option Nat), absent s.insts op.1 = true ∧ owner op ≠ t ∧
       comp t (step c s op).1 ≠ comp t s := by
   refine ⟨final c (Server.initAd 2 true) (restoreOps.take 5), (0, .keepAlive), some 1, ?_, ?_, ?_⟩
-  all_goals (obtain ⟨a, b⟩ := c; simp only at h; subst h; cases a <;> decide)
+  all_goals (obtain ⟨a, b, d⟩ := c; simp only at h; subst h; cases a <;> cases d <;> decide)
+
+/-- instance 0 gets a session-level setting for `k2` (key 1: an element its scenario does not list) and a
+step-level one for `tbl2` (key 3), and is stopped; then instance 1 is started, begins a session and steps. -/
+def recycleOps : List (Nat × Req) :=
+  [(0, .beginSession [(1, 7)]), (0, .runStep [(3, 4)]), (0, .stop), (1, .create), (1, .beginSession noSt), (1, .runStep noSt)]
+
+/-- Negation witness for recycled objects with an incomplete reset (`freshObjects = false`), whatever else
+holds: the instance started after the stop gets the stopped instance's object — `end_session()` reset its caches
+and session, but the settings written into its scenario (`k2 = 7`) and model (`tbl2 = 4`) are still there, and the
+new instance's first step is computed under them. -/
+theorem C16_witness_recycled (c : Cfg) (h : c.freshObjects = false) : ¬ C16_full c := by
+  intro hf
+  have := hf 1 false recycleOps (some 1)
+  obtain ⟨a, b, d⟩ := c; simp only at h; subst h
+  revert this; cases a <;> cases b <;> decide
+
+/-- … and the same object reaches an instance RESTORED from the adapter after a timeout (`_make_bptk` again). -/
+theorem C16_witness_recycled_restore (c : Cfg) (h : c.freshObjects = false) (hr : c.restoreOnlyAddressed = true) :
+    ¬ C16_full c := by
+  intro hf
+  have := hf 2 true [(1, .beginSession noSt), (1, .runStep noSt), (1, .expire), (0, .beginSession [(1, 7)]), (0, .runStep noSt),
+    (0, .stop), (1, .runStep noSt)] (some 1)
+  obtain ⟨a, b, d⟩ := c; simp only at h hr; subst h hr
+  revert this; cases a <;> decide
 
 /-- Non-vacuity: three instances plus one created during the history, an adapter, interleaved sessions with
-different settings (begin-session and run-step), `/run` with a setting in between, a stop, a timeout followed by
-the lazy restoration of the timed-out instance. -/
+different settings (begin-session and run-step, constants and points, listed and unlisted elements), `/run` with a
+setting in between, a stop followed by a start, a timeout followed by the lazy restoration of the timed-out
+instance — instance 1's responses with their values. -/
 example :
-    respsOf (some 1) (resps ⟨true, true⟩ (Server.initAd 3 true)
-      [(0, .beginSession none), (1, .beginSession (some 4)), (0, .runStep (some 7)), (1, .runStep (some 2)), (2, .beginSession none),
-       (5, .create), (0, .run (some 9)), (0, .runStep none), (2, .stop), (1, .runStep none), (1, .expire), (5, .beginSession (some 3)),
-       (1, .results), (0, .keepAlive), (1, .runStep none), (1, .endSession), (0, .equations)])
-    = [some .started, some (.stepped 0 0 2), some (.stepped 1 2 2), some .swept, some (.results [(0, 0), (1, 2)]),
-       some (.stepped 2 4 2), some .ended] := by
+    respsOf (some 1) (resps ⟨true, true, true⟩ (Server.initAd 3 true)
+      [(0, .beginSession noSt), (1, .beginSession [(1, 4)]), (0, .runStep [(0, 7)]), (1, .runStep [(2, 2)]), (2, .beginSession noSt),
+       (2, .stop), (5, .create), (0, .run [(3, 9)]), (0, .runStep noSt), (1, .runStep noSt), (1, .expire), (5, .beginSession [(2, 3)]),
+       (1, .results), (0, .keepAlive), (1, .runStep [(0, 6)]), (1, .endSession), (0, .equations)])
+    = [some .started,
+       some (.stepped 0 [[(0, 1), (1, 4), (2, 2)]]),
+       some (.stepped 1 [[(0, 1), (1, 4), (2, 2)], [(0, 1), (1, 4), (2, 2)]]),
+       some .swept,
+       some (.results [(0, [(0, 1), (1, 4), (2, 2)]), (1, [(0, 1), (1, 4), (2, 2)])]),
+       some (.stepped 2 [[(0, 1), (1, 4), (2, 2)], [(0, 1), (1, 4), (2, 2)], [(0, 6), (1, 4), (2, 2)]]),
+       some .ended] := by
   decide
 
 #print axioms C16_full_of_good
+#print axioms C16_values
+#print axioms C16_lifecycle
+#print axioms takeObj_fresh
 #print axioms C16_partial
 #print axioms C16_stop_timeout_local
 #print axioms C16_commute
@@ -425,5 +554,7 @@ example :
 #print axioms C16_witness_restore_all_ghost
 #print axioms C16_absent_touches_nobody
 #print axioms C16_absent_touches_others
+#print axioms C16_witness_recycled
+#print axioms C16_witness_recycled_restore
 
 end Bptk.C16
